@@ -72,6 +72,25 @@ def gen_cases(seed, tier):
             for pol in ('fail', rnd.choice(['replace', 'ignore', 'unihex', 'keep'])):
                 cases.append(_case(chr(c), xml, rnd.choice(PROTS), pol, 'passthrough-boundary'))
                 cases.append(_case('a' + chr(c) + 'b', xml, rnd.choice(PROTS), pol, 'passthrough-boundary'))
+    # a replacement that is a control WORD, directly followed by letters that would extend it to the name of a macro
+    # taking a mandatory argument (\l + "abel", \o + "verline", \i + "nput" ...), at the end of the input
+    from pylatexenc.latexwalker import get_default_latex_context_db
+    need_arg = sorted(m.macroname for m in get_default_latex_context_db().iter_macro_specs()
+                      if m.macroname.isalpha() and any(str(getattr(a, 'parser', a)) in ('{',) or a == '{'
+                                                       for a in (m.arguments_spec_list or [])))
+    for xml, T in ((False, D), (True, X)):
+        for c, r in sorted(T.items()):
+            if not (r.startswith('\\') and r[1:].isalpha() and len(r) <= 4):
+                continue
+            ch = chr(c)
+            if unicodedata.normalize('NFC', ch) != ch:
+                continue
+            for name in need_arg:
+                if name.startswith(r[1:]) and len(name) > len(r) - 1:
+                    for p in PROTS:
+                        if p == 'none':
+                            continue        # documented: no protection, the control word fuses with what follows
+                        cases.append(_case('see ' + ch + name[len(r) - 1:], xml, p, rnd.choice(POLS), 'fusion'))
     pool = ([chr(c) for c in sorted(D)] + list(ACTIVE) + list('ab 1.\n\t') +
             ['\x00', '\x07', '\x7f', '\x85', '́', '̋', '​', '\U0001F600', '\U000E0001', '͸', '퟿',
              '�', '\U0010FFFF', '中', 'é', 'ß'])
